@@ -166,7 +166,13 @@ pub fn read_pattern(p: &ast::Pattern, o: &mut String) {
             Some(n) => {
                 let _ = write!(o, "(pspread {n})");
             }
-            None => o.push_str("(pspread)"),
+            // a discarded tail (`.._rest`) has no NAME node: its token sits in the spread itself
+            None => match s.syntax().children_with_tokens().filter_map(|c| c.into_token()).find(|t| t.kind() == SyntaxKind::DISCARD_IDENT) {
+                Some(t) => {
+                    let _ = write!(o, "(pspread {})", t.text());
+                }
+                None => o.push_str("(pspread)"),
+            },
         },
         ast::Pattern::AsPattern(a) => {
             o.push_str("(pas ");
